@@ -1,11 +1,15 @@
 (* Properties_C13 -- trivia and discarded forms never change the value read.  Statements only.
-   PARTIAL: proved at the scanner level (trivia insertion only advances the scanner) and for
-   the handler-suppression part (no handler is invoked while a form is being discarded, the
-   flag is restored); the reader-level statement "inserting trivia between two forms leaves the
-   value unchanged" is decided by the correspondence run + metamorphic oracle. *)
+   Proved: at the scanner level trivia insertion only advances the scanner; at the READER level, wherever a form
+   is about to be read (top level, element of any collection, operand of a tag / discard / metadata marker) a run of
+   trivia standing at the cursor is absorbed with no effect on any component of the outcome
+   (C13_reader_absorbs_trivia); input consisting only of trivia reads as end of input -- the end-of-input error, or
+   exactly the caller's end-of-input value with no error (C13_trivia_only_document); no handler is invoked while a
+   form is being discarded and the flag is restored.
+   PARTIAL: that a DISCARDED FORM in front of a form leaves the value unchanged, and the comparison of two different
+   documents (with / without the trivia, positions shifted) is decided by the correspondence run + metamorphic oracle. *)
 From Coq Require Import ZArith NArith List Bool.
 From Coq.Strings Require Import Byte.
-From Verif Require Import Lanes Common Values Scan Reader ScanProofs TriviaProofs DiscardInv.
+From Verif Require Import Lanes Common Values Scan Reader ScanProofs TriviaProofs TriviaReader DiscardInv.
 Import ListNotations.
 
 (* whitespace bytes, commas and LF-terminated comments in front of anything: the scanner
@@ -33,9 +37,28 @@ Theorem C13_discard_flag_restored : forall c o handler xe xh sort m e f,
   Qv (read_value c o handler xe xh sort m e f).
 Proof. exact (fun c o handler xe xh sort m e f => proj1 (readers_quiet c o handler xe xh sort m e f)). Qed.
 
+(* the reader started in front of a run of trivia returns exactly what it returns when started behind it *)
+Theorem C13_reader_absorbs_trivia : forall c o handler xe xh sort m e f s t,
+  trivia t -> t <> [] -> slice m (cur s) (List.length t) = t -> (cur s + N.of_nat (List.length t) <= e)%N ->
+  form_starts m e (cur s + N.of_nat (List.length t))%N ->
+  read_value c o handler xe xh sort m e (S f) s =
+  read_value c o handler xe xh sort m e (S f) (with_cur s (cur s + N.of_nat (List.length t))%N).
+Proof. exact read_value_absorbs_trivia. Qed.
+
+(* a document consisting only of trivia: end-of-input error, or the caller's end-of-input value with no error;
+   no value, no handler call *)
+Theorem C13_trivia_only_document : forall c o handler xe xh sort m e f t st,
+  ws_state false t = Some st -> slice m 0 (N.to_nat e) = t -> List.length t = N.to_nat e ->
+  exists r s', read_doc c o handler xe xh sort m e (S f) = Ret r s' /\ r_value r = None /\
+    (if has_eof_value o then r_eof r = true /\ r_err r = EOk else r_eof r = false /\ r_err r = EEof) /\
+    calls (r_state r) = [].
+Proof. exact read_doc_trivia_only. Qed.
+
 Example C13_example : trivia [" "; ","; ";"; "x"; "010"; "009"]%byte.
 Proof. reflexivity. Qed.
 
+Print Assumptions C13_reader_absorbs_trivia.
+Print Assumptions C13_trivia_only_document.
 Print Assumptions C13_trivia_insertion.
 Print Assumptions C13_skip_ws_trivia.
 Print Assumptions C13_no_handler_in_discarded_form.
